@@ -117,9 +117,10 @@ func c10SortProvocations(c *Ctx, out map[string]func() string) {
 		add(name, func() string { return c10CompileErr(src) })
 		expectRe[name] = [2]string{`parameter (p\d\d):`, strings.Join(want, " ")}
 	}
-	// ---- unifyMapSources / sortedSplitList: split arguments of one call, bound to arrays of
-	// different static lengths by the caller; the first split in source order is the root every
-	// other one is compared with, and the mismatches are reported in source order
+	// ---- split arguments of one call, bound to arrays of different static lengths by the caller:
+	// the compiled program reports the mismatches while it resolves the input bindings (in source
+	// order, against the first split), BEFORE unifyMapSources sees them - unifyMapSources itself is
+	// provoked by the direct calls of the syntax hook (mismatching / consistent splits on given lines)
 	{
 		var ins, binds, pins, pbinds, want []string
 		for i := 0; i < n; i++ {
@@ -139,7 +140,7 @@ func c10SortProvocations(c *Ctx, out map[string]func() string) {
 		src := "stage ST(\n" + strings.Join(ins, "\n") + "\n    out int r,\n    src comp \"mock\",\n)\n\npipeline INNER(\n" +
 			strings.Join(pins, "\n") + "\n    out int[] rs,\n)\n{\n    map call ST(\n" + strings.Join(binds, "\n") +
 			"\n    )\n\n    return (\n        rs = ST.r,\n    )\n}\n\ncall INNER(\n" + strings.Join(pbinds, "\n") + "\n)\n"
-		name := "unifyMapSources(12 split arguments of different static lengths)"
+		name := "Node inputs(12 split arguments of different static lengths: binding resolution before unifyMapSources)"
 		add(name, func() string { return c10CompileErr(src) })
 		expectRe[name] = [2]string{`array length mismatch (\d+ vs \d+)`, strings.Join(want, " ")}
 	}
